@@ -245,7 +245,7 @@ def run_callable(payload):
         obs_r = "raises " + type(ex).__name__
     parts = []
     for args in got:
-        parts.append("(" + ",".join(e.ser(a) for a in args) + ")")
+        parts.append("(" + ",".join((canon(a) if payload.get("canon_args") else e.ser(a)) for a in args) + ")")
     if payload.get("only_result"):
         return "result=" + obs_r + "\x00" + payload["exp"]
     return "calls=" + "".join(parts) + " result=" + obs_r + "\x00" + payload["exp"]
@@ -403,6 +403,111 @@ def _chains():
     return out
 
 
+# ---------------------------------------------------------------------------------------------
+# integers beyond 2**53 (ids, timestamps in ns, 64-bit handles) and the call forms of an exposed callable
+BIG_INTS = [2 ** 53 + 1, -(2 ** 53) - 1, 2 ** 53 + 2, 2 ** 63 - 1, -(2 ** 63), 2 ** 64, 2 ** 64 + 1, 2 ** 70, 10 ** 30 + 1, -(10 ** 30) - 1,
+            2 ** 1023, 2 ** 1024, 10 ** 400]
+
+
+def _bigint_cases():
+    out = []
+    for b in BIG_INTS:
+        for shape, v in (("leaf", b), ("in list", [1, b]), ("in dict", {"id": b}), ("nested", {"a": [{"b": [b, -b]}]}), ("twice", [b, b])):
+            out.append(("set/get/eval round trip of a large int %s: %s" % (shape, repr(v)[:80]), {"v": v}))
+    return out
+
+
+def _bigint_callable_cases():
+    out = []
+    for b in BIG_INTS:
+        for ret, acc in ((b, "r"), ([b], "r[0]"), ({"id": b}, "r.id"), ([[b]], "r[0][0]")):
+            out.append(("callable returns %s, script passes %s straight back" % (repr(ret)[:60], acc),
+                        {"src": "var r = f(); f(%s); typeof %s" % (acc, acc), "ret": ret, "canon_args": True,
+                         "exp": "calls=()(%s) result=s\"number\"" % canon(b)}))
+    return out
+
+
+def _ser_py(v):
+    """What engine.ser prints for the Python value a callable receives back."""
+    if isinstance(v, list):
+        return "[" + ",".join(_ser_py(x) for x in v) + "]"
+    if isinstance(v, dict):
+        return "{" + ",".join(json.dumps(k) + ":" + _ser_py(x) for k, x in v.items()) + "}"
+    return canon(v)
+
+
+# the same exposed callable reached through every call form, twice in a row (what it receives must not depend on earlier calls)
+CALL_FORMS = [
+    ("plain", "f(1, 'a'); f(2)", "(1,a)(2)"),
+    ("call", "f.call(null, 1, 'a'); f.call({}, 2)", "(1,a)(2)"),
+    ("apply", "f.apply(null, [1, 'a']); f.apply(null, [2])", "(1,a)(2)"),
+    ("bind", "var g = f.bind(null); g(1, 'a'); g(2)", "(1,a)(2)"),
+    ("bind-partial", "var g = f.bind(null, 9); g(1); g(2); g()", "(9,1)(9,2)(9)"),
+    ("bind-partial-2", "var g = f.bind(null, 9, 8); g(1); g(1); g(2, 3)", "(9,8,1)(9,8,1)(9,8,2,3)"),
+    ("bind-chain", "var g = f.bind(null, 9).bind(null, 8); g(1); g(2)", "(9,8,1)(9,8,2)"),
+    ("two-bound", "var g = f.bind(null, 9), h = f.bind(null, 7); g(1); h(1); g(2); f(3)", "(9,1)(7,1)(9,2)(3)"),
+    ("method", "var o = {m: f}; o.m(1, 'a'); o.m(2)", "(1,a)(2)"),
+    ("callback-map", "[5, 6].map(f); [7].map(f)", "(5,0,<JSArray>)(6,1,<JSArray>)(7,0,<JSArray>)"),
+    ("callback-forEach-bound", "var g = f.bind(null, 9); [5, 6].forEach(g); [7].forEach(g)", "(9,5,0,<JSArray>)(9,6,1,<JSArray>)(9,7,0,<JSArray>)"),
+    ("callback-reduce", "[5, 6, 7].reduce(f, 0)", None),
+    ("new", "try { new f(1) } catch (e) { } f(2)", None),
+    ("stored-and-called-later", "var keep = [f, f.bind(null, 4)]; keep[0](1); keep[1](1); keep[1](2); keep[0](2)", "(1)(4,1)(4,2)(2)"),
+    ("getter", "var o = {get p() { return f(1) }}; o.p; o.p", "(1)(1)"),
+    ("valueOf", "var o = {valueOf: f}; o + 1; o * 2", None),
+    ("sort-comparator", "[2, 1].sort(f); [4, 3].sort(f)", None),
+    ("replace-callback", "'ab'.replace(/(a)|(z)/, f); 'ab'.replace('b', f)", None),
+]
+
+
+def run_call_forms(payload):
+    """Every call form twice: the argument tuples of the second round equal those of the first, and literal expectations hold."""
+    from mc.props.common import engine
+    e = engine()
+    got = []
+
+    def f(*args):
+        got.append(args)
+        return 0
+
+    def show(calls):
+        def one(a):
+            if isinstance(a, float) and a == int(a):
+                return str(int(a))
+            if isinstance(a, (bool, int, float, str)):
+                return str(a)
+            return "u" if a is None else "<" + type(a).__name__ + ">"
+        return "".join("(" + ",".join(one(a) for a in args) + ")" for args in calls)
+
+    out = []
+    for rnd in (1, 2):
+        e.CLOCK.reset("poll")
+        ctx = e.Context(time_limit=100)
+        ctx.set("f", f)
+        del got[:]
+        try:
+            ctx.eval(payload["src"])
+            if rnd == 2:
+                first = show(got)
+                del got[:]
+                ctx.eval(payload["src"])         # same statements again on the same context
+                out.append("repeat-" + ("same" if show(got) == first else "differs:" + show(got)))
+            else:
+                out.append(show(got))
+        except e._errors.JSError as ex:
+            out.append("JSError")
+        except Exception as ex:  # noqa: BLE001
+            out.append("host " + type(ex).__name__)
+    exp = payload.get("exp")
+    want = [exp if exp is not None else out[0], "repeat-same"]
+    if out[0] in ("JSError",) or out[0].startswith("host"):
+        want[0] = exp or "a list of calls"
+    return " ".join(out) + "\x00" + " ".join(want)
+
+
+def _call_form_cases():
+    return [("exposed callable via %s: %s" % (n, src), {"src": src, "exp": exp}) for n, src, exp in CALL_FORMS]
+
+
 def _sp(name, runner, fn, rule, bound, batch=100):
     return Space(name, "mc.props.c11:" + runner, fn, oracle="inline", rule=rule, bound=bound, batch=batch, watchdog=60,
                  nontrivial=lambda cid, p, exp: True)
@@ -438,6 +543,16 @@ def spaces(tier, seed, all_strata=False):
         _sp("c11_callable", "run_callable", lambda: _callable_cases(2),
             "all argument vectors of length <= 2 over 12 JS values to an exposed callable (order and value of what it "
             "receives); 14 Python return kinds observed by the script; 5 mentions without a call", "vectors <= 2"),
+        _sp("c11_bigint", "run_roundtrip", _bigint_cases,
+            "%d integers beyond 2^53 (2^53+1 ... 2^64+1, 10^30+1, 2^1024, 10^400) as a leaf, in a list, in a dict, nested and "
+            "repeated: set then get, eval(name), freshness" % len(BIG_INTS), "13 x 5"),
+        _sp("c11_bigint_callable", "run_callable", _bigint_callable_cases,
+            "the same integers returned by an exposed callable (bare, in a list, in a dict) and handed straight back to it", "13 x 3"),
+        _sp("c11_call_forms", "run_call_forms", _call_form_cases,
+            "one exposed callable reached through %d call forms (plain, call, apply, bind with 0/1/2 partial arguments, bind chains, "
+            "two bound copies, method, callbacks of built-ins, new, stored and called later, getter, valueOf, comparator, replace "
+            "callback), each run twice on one context: argument tuples as listed, and identical on the second round" % len(CALL_FORMS),
+            "%d forms x 2 rounds" % len(CALL_FORMS), batch=4),
         _sp("c11_chains", "run_roundtrip", _chains, "nesting chains of depth 10..2000, shared sub-objects, non-JSON host values",
             "depth sweep", batch=2),
         _sp("c11_histories_d4", "run_history", lambda: _histories(4),
